@@ -15,8 +15,8 @@ ID = "C28"
 LEVEL = "exploration"
 RULE = (
     "The C02 history generator (program family with code edits, version bumps, reverts, argument "
-    "changes, input-file rewrites, runs; default and shallow validity; some tasks with prov=False or "
-    "cache=False) produces backends that are "
+    "changes, input-file rewrites, runs; default and shallow validity; some tasks with prov=False, "
+    "cache=False or an executor name that is not configured) produces backends that are "
     "empty, partially cached, fully cached or stale after edits. Before every real run of the history "
     "the backend file is copied twice: a dry run (Scheduler.run(dryrun=True)) is made on the first "
     "copy under the harness executor, a real run on the second. Oracle: during the dry run no task "
@@ -36,8 +36,10 @@ def cases(draw):
     case = draw(c02.cases(shallow_prob=4))
     extra = {}
     for i in range(case["n"]):
-        k = draw(st.sampled_from([None, None, None, None, "prov", "cache"]))
-        if k:
+        k = draw(st.sampled_from([None, None, None, None, None, "prov", "cache", "nope"]))
+        if k == "nope":
+            extra[i] = {"executor": "nope"}      # rejected by the scheduler before any executor sees it
+        elif k:
             extra[i] = {k: False}
 
     def dress(i, v):
